@@ -250,6 +250,9 @@ def run(R, ctx):
     # Lua's visibility rules as event-order constraints (shared with C09.order)
     from . import c09
     c09.order(R, ctx, "C01.scope")
+    # rename_variables is one of the default rules: its name bookkeeping (C09.pool) and the distinctness of live names (C09.distinct)
+    c09.pool(R, ctx, rid_override="C01.rename")
+    c09.distinct_names(R, ctx, rid="C01.rename-distinct")
     reach_and_list(R, ctx)
     from .. import loops
     loops.index_removal_rule(R, ctx, "C01.index")
